@@ -9,6 +9,7 @@ from .. import grammar as G
 from .. import reference as R
 from .. import refsolver, scripted, snapshot, spans
 from .. import solvecheck as SC
+from ..represent import Rep, tapes, with_rep
 from ..util import attempt
 
 import fsic
@@ -152,7 +153,9 @@ def check_system(case):
     init = {'Y': [1.0] * n, 'Z': [0.5] * n, 'a': [a] * n, 'b': [b] * n, 'c': [c] * n, 'd': [d] * n}
     m = M(range(n), **{k: np.array(v) for k, v in init.items()})
     opts = dict(case['opts'])
-    got = attempt(m.solve_t, t, **opts)
+    rep = Rep(case.get('rep'))
+    got = attempt(m.solve_t, rep.int(t), **rep.opts(opts))
+    rep.tag(res)
     st = SC.ref_state(init, n)
     want = refsolver.solve_t(st, t, n, check=ref.endogenous, endogenous=ref.endogenous,
                              evaluate=SC.ref_program_evaluate(ref, list(range(n))), **opts)
@@ -177,12 +180,13 @@ def strat_system():
             'tol': st.sampled_from([1e-6, 0.5, 2.0 ** -10, 1e-10]), 'failures': st.sampled_from(['raise', 'ignore']),
             'errors': st.sampled_from(['raise', 'ignore']),
         }),
+        'rep': tapes(),
     })
 
 
 def phases(tier):
     quick = tier == 'quick'
     return [
-        Phase('lattice', check_scripted, gen=gen_lattice(4 if quick else 7, 2 if quick else 3), exhaustive=True),
+        Phase('lattice', check_scripted, gen=with_rep(gen_lattice(4 if quick else 7, 2 if quick else 3)), exhaustive=True),
         Phase('equation-systems', check_system, strategy=strat_system, examples=1500 if quick else 40000),
     ]
